@@ -39,8 +39,8 @@ def cases_from_vectors(ctx, limit):
     return [V.mkcase("vec%d" % k, v["unlock"], v["lock"], v["flags"], "vector") for k, v in enumerate(vs)]
 
 
-FAMILIES_QUICK = ["unary", "shift", "flow4", "nonmin", "binary", "two2", "locktime"]
-FAMILIES_THOROUGH = ["unary", "shift", "flow5", "nonmin", "binary", "ternary", "two3", "locktime"]
+FAMILIES_QUICK = ["unary", "shift", "flow4", "nonmin", "binary", "two2", "locktime", "uflow4", "wide"]
+FAMILIES_THOROUGH = ["unary", "shift", "flow5", "nonmin", "binary", "ternary", "two3", "locktime", "uflow4", "wide"]
 
 
 def cases_from_model(ctx, per_family):
@@ -111,7 +111,7 @@ def run(ctx):
         raise vf.Infra("calibration failure: ScriptVM.tla says %s, node vector expects %s: %s | %s" % (o["spec"], v["expect"], A.disasm(v["unlock"]), A.disasm(v["lock"])))
     ctx.cov["calibration"] = {k: v for k, v in cal.items() if k != "bad"}
     cases = cases_from_vectors(ctx, ctx.pick(400, None))
-    cases += cases_from_model(ctx, ctx.pick(2000, 40000))
+    cases += cases_from_model(ctx, ctx.pick(4500, 40000))
     cases += V.random_cases(ctx, ctx.pick(3000, 60000))
     cases += V.mutated_vectors(ctx, ctx.pick(800, 20000))
     cases += V.p2sh_cases(ctx, ctx.pick(600, 10000))
